@@ -106,7 +106,7 @@ def check_accounting(case, workdir):
     if case.get("jitter") is not None:
         env["CMI_VERIF_JITTER"] = case["jitter"]
     args = ["--params", "params.yml", "--task-based", "--threads", str(case["threads"])]
-    run = cmirun.run(workdir, args, env, timeout=case.get("timeout", 60))
+    run = cmirun.run(workdir, args, env, timeout=case.get("timeout", 30))
     nsub = case["nsub"][0] * case["nsub"][1] * case["nsub"][2]
     # labels
     if case["threads"] >= 2:
@@ -130,7 +130,7 @@ def check_accounting(case, workdir):
     if run["timeout"]:
         recs = cmirun.parse_kv_lines(os.path.join(workdir, "verif_accounting.txt"))
         return r.fail("run did not finish within %d s (normal < 2 s): %d accounting records so far; last output: %s" % (
-            case.get("timeout", 60), len(recs), run["out"][-200:].replace("\n", " | ")))
+            case.get("timeout", 30), len(recs), run["out"][-200:].replace("\n", " | ")))
     if run["rc"] != 0:
         return r.fail("run failed rc=%s: %s" % (run["rc"], run["out"][-600:].replace("\n", " | ")))
     recs = cmirun.parse_kv_lines(os.path.join(workdir, "verif_accounting.txt"))
